@@ -33,6 +33,8 @@ void after_state(World& W, int wi, WState st)
   if (st == WState::Stalled) W.lbl_stall = true;
 }
 
+bool drain(World& W); // sim_main.cpp
+
 void finish_op(World& W, int wi)
 {
   WInfo& x = W.workers[wi];
@@ -578,8 +580,16 @@ void op_bt_init(World& W, int wi)
   {
     // re-initialisation: same capacity anywhere; a different capacity only right after a flush (store empty, both readings
     // of "re-initialise" agree); the flush level is read by the backend at processing time, so it only changes at drained
-    // points, which the generator does not track: keep it
-    lvl = L.bt_flush_level;
+    // points: half of the re-initialisations outside a poll drain first and may then set ANY level (also back to None)
+    bool drained_first = false;
+    if (!W.in_poll && c.pick(2) == 1)
+    {
+      W.log_op("DrainIdle");
+      if (!drain(W)) return;
+      drained_first = true;
+    }
+    if (!drained_first) lvl = L.bt_flush_level;
+    else if (lvl != L.bt_flush_level) W.r->label(lvl == 10 ? "bt_reinit_flush_level_back_to_none" : "bt_reinit_changes_flush_level");
     if (L.bt_stored_since_flush != 0) cap = L.bt_cap;
   }
   L.bt_init = true;
